@@ -11,7 +11,9 @@ import (
 	"time"
 
 	bpmn "github.com/olive-io/bpmn/v2"
+	"github.com/olive-io/bpmn/v2/pkg/clock"
 	"github.com/olive-io/bpmn/v2/pkg/event"
+	"github.com/olive-io/bpmn/v2/pkg/timer"
 	"github.com/olive-io/bpmn/v2/pkg/tracing"
 
 	"verif/harness/internal/prog"
@@ -119,11 +121,33 @@ func CancelRun(run, progIdx int, p *prog.Program, cancelAt int, o Options, label
 		vars[k] = v
 	}
 	startOK := false
+	hasTimer := false
 	pprof.Do(ctx, pprof.Labels("vcase", label), func(lctx context.Context) {
 		engine := bpmn.NewEngine()
 		opts := []bpmn.Option{bpmn.WithContext(lctx)}
 		if len(vars) > 0 {
 			opts = append(opts, bpmn.WithVariables(vars))
+		}
+		// a program with timer event definitions runs against the HOST clock: the timers (and
+		// whatever the clock starts on their behalf) are goroutines of the instance as well
+		for _, n := range p.Nodes {
+			for _, e := range n.Evs {
+				if e.K == "timer" && !hasTimer {
+					hasTimer = true
+				}
+			}
+		}
+		if hasTimer {
+			hc, herr := clock.Host(lctx)
+			if herr != nil {
+				err = herr
+				return
+			}
+			tctx := clock.ToContext(lctx, hc)
+			fanOut := event.NewFanOut()
+			tr := tracing.NewTracer(tctx)
+			opts = []bpmn.Option{bpmn.WithContext(tctx), bpmn.WithTracer(tr), bpmn.WithEventEgress(fanOut), bpmn.WithEventIngress(fanOut),
+				bpmn.WithProcessEventDefinitionInstanceBuilder(event.DefinitionInstanceBuildingChain(timer.EventDefinitionInstanceBuilder(tctx, fanOut, tr)))}
 		}
 		inst, err = engine.NewProcess(defs, opts...)
 		if err != nil {
@@ -183,7 +207,7 @@ func CancelRun(run, progIdx int, p *prog.Program, cancelAt int, o Options, label
 				}
 			case bpmn.ActiveListeningTrace:
 				if idp, ok := t.Node.Id(); ok {
-					if n := p.Node(*idp); n != nil && len(n.Evs) > 0 && n.Kind == "catch" {
+					if n := p.Node(*idp); n != nil && len(n.Evs) > 0 && n.Kind == "catch" && n.Evs[0].K != "timer" {
 						e := n.Evs[0]
 						go func() {
 							time.Sleep(200 * time.Microsecond)
